@@ -265,35 +265,79 @@ Proof.
   rewrite Hf. reflexivity.
 Qed.
 
-Theorem number_roundtrip k z : in_kind k z = true -> number_read k (number_bytes k z) = Ok z.
+(* `value as T` of a value that is in T *)
+Lemma from_i64_id k z : in_kind k z = true -> from_i64 k z = z.
 Proof.
   intros H. apply in_kind_range in H.
-  destruct kind_sel_values as (S1 & S2 & S3 & S4 & S5 & S6 & S7 & S8).
-  destruct k; cbn [kind_range] in H; cbv [i64_min i64_max] in H;
-    change (Z.of_N two63) with 9223372036854775808%Z in H.
-  - apply number_u32; [exact S1|lia|unfold from_i64; lia].
-  - apply number_s32; [exact S5|lia|unfold from_i64, wrap_signed; lia].
-  - apply number_u32; [exact S2|lia|unfold from_i64; lia].
-  - apply number_s32; [exact S6|lia|unfold from_i64, wrap_signed; lia].
-  - apply number_u32; [exact S3|lia|unfold from_i64; lia].
-  - apply number_s32; [exact S7|lia|unfold from_i64, wrap_signed; lia].
-  - (* u64 *)
-    unfold number_read, number_bytes, to_i64. rewrite S4. rewrite i64_wrap_eq.
-    unfold write_uint64, read_uint64.
-    rewrite read_varint_self by apply u64_of_i64_lt.
-    cbn [bind]. unfold from_i64. f_equal.
-    unfold i64_of_u64, u64_of_i64. change (Z.of_N two64) with 18446744073709551616%Z.
-    destruct (N.ltb_spec (Z.to_N (((z + 9223372036854775808) mod 18446744073709551616 - 9223372036854775808)
-                                   mod 18446744073709551616)) two63) as [L|L]; unfold two63 in L; lia.
-  - (* i64 *)
-    unfold number_read, number_bytes, to_i64. rewrite S8. rewrite i64_wrap_eq.
-    unfold write_sint64, read_sint64.
-    rewrite read_varint_self by apply zz64_lt.
-    cbn [bind].
-    replace ((z + 9223372036854775808) mod 18446744073709551616 - 9223372036854775808)%Z with z by lia.
-    rewrite zigzag64_roundtrip
-      by (unfold is_i64; change (Z.of_N two63) with 9223372036854775808%Z; lia).
-    unfold from_i64. reflexivity.
+  destruct k as [| | | | | | | |[|] mn mx]; cbn [kind_range] in H; cbv [i64_min i64_max] in H;
+    change (Z.of_N two63) with 9223372036854775808%Z in H; unfold from_i64, wrap_signed; lia.
+Qed.
+
+Lemma number_u64 k z :
+  kind_sel k = PUInt64 -> from_i64 k (i64_wrap z) = z -> number_read k (number_bytes k z) = Ok z.
+Proof.
+  intros Hk Hf. unfold number_read, number_bytes, to_i64. rewrite Hk.
+  unfold write_uint64, read_uint64. rewrite read_varint_self by apply u64_of_i64_lt. cbn [bind].
+  rewrite u64_i64_roundtrip; [rewrite Hf; reflexivity|].
+  rewrite i64_wrap_eq. unfold is_i64. change (Z.of_N two63) with 9223372036854775808%Z. lia.
+Qed.
+
+Lemma number_s64 k z :
+  kind_sel k = PSInt64 -> from_i64 k (i64_wrap z) = z -> number_read k (number_bytes k z) = Ok z.
+Proof.
+  intros Hk Hf. unfold number_read, number_bytes, to_i64. rewrite Hk.
+  unfold write_sint64, read_sint64. rewrite read_varint_self by apply zz64_lt. cbn [bind].
+  rewrite zigzag64_roundtrip; [rewrite Hf; reflexivity|].
+  rewrite i64_wrap_eq. unfold is_i64. change (Z.of_N two63) with 9223372036854775808%Z. lia.
+Qed.
+
+(* the cast to i64 and back is the identity on every value of the Rust type *)
+Lemma from_to_i64 k z : in_kind k z = true -> from_i64 k (i64_wrap z) = z.
+Proof.
+  intros H. apply in_kind_range in H. rewrite i64_wrap_eq.
+  destruct k as [| | | | | | | |[|] mn mx]; cbn [kind_range] in H; cbv [i64_min i64_max] in H;
+    change (Z.of_N two63) with 9223372036854775808%Z in H; unfold from_i64, wrap_signed; lia.
+Qed.
+
+Definition base_kind (k : pikind) : bool := match k with KExt _ _ _ => false | _ => true end.
+
+(* the value survives the cast of the wire format chosen by write_number: the Rust type is never wider than the format
+   (the fixed-width kinds by their ranges; an extensible INTEGER always gets a 64-bit format since /repo 4788e65) *)
+Definition num_fits (k : pikind) (z : Z) : bool :=
+  match kind_sel k with
+  | PUInt32 => ((0 <=? z) && (z <? 4294967296))%Z
+  | PSInt32 => ((-2147483648 <=? z) && (z <? 2147483648))%Z
+  | _ => true
+  end.
+
+Lemma ext_sel64 sg mn mx : kind_sel (KExt sg mn mx) = PUInt64 \/ kind_sel (KExt sg mn mx) = PSInt64.
+Proof.
+  unfold kind_sel, num_sel. cbn [kind_ext kind_min negb andb]. destruct (0 <=? unwrap_or mn 0)%Z; [left|right]; reflexivity.
+Qed.
+
+Lemma all_fits k z : in_kind k z = true -> num_fits k z = true.
+Proof.
+  intros H. destruct (base_kind k) eqn:Hb.
+  - apply in_kind_range in H.
+    destruct kind_sel_values as (S1 & S2 & S3 & S4 & S5 & S6 & S7 & S8).
+    unfold num_fits.
+    destruct k; try discriminate Hb; cbn [kind_range] in H; cbv [i64_min i64_max] in H;
+      change (Z.of_N two63) with 9223372036854775808%Z in H;
+      rewrite ?S1, ?S2, ?S3, ?S4, ?S5, ?S6, ?S7, ?S8; try reflexivity; lia.
+  - destruct k as [| | | | | | | |sg mn mx]; try discriminate Hb. unfold num_fits.
+    destruct (ext_sel64 sg mn mx) as [E|E]; rewrite E; reflexivity.
+Qed.
+
+(* every integer kind, every value of its Rust type *)
+Theorem number_roundtrip k z : in_kind k z = true -> number_read k (number_bytes k z) = Ok z.
+Proof.
+  intros Hin. pose proof (all_fits k z Hin) as Hfit.
+  pose proof (from_i64_id k z Hin) as Hid. pose proof (from_to_i64 k z Hin) as Hft.
+  unfold num_fits in Hfit. destruct (kind_sel k) eqn:Hk.
+  - apply number_u32; [exact Hk|lia|exact Hid].
+  - apply number_u64; assumption.
+  - apply number_s32; [exact Hk|lia|exact Hid].
+  - apply number_s64; assumption.
 Qed.
 
 (** * Message level: a one-component message holding an integer (what a tuple struct
@@ -380,7 +424,7 @@ Proof.
   unfold next_reader. cbn [next_tag_range take_tag]. rewrite N.eqb_refl. cbn [andb].
   change (format_eqb VarInt VarInt) with true. cbv iota beta. cbn [unwrap_or]. rewrite Hsl. cbn [bind].
   assert (Hnn : is_nil nb = false) by (destruct nb; [cbn [length] in Hnb; lia|reflexivity]).
-  rewrite Hnn. unfold nb. rewrite number_roundtrip by exact Hin. reflexivity.
+  rewrite Hnn. unfold nb. rewrite number_roundtrip by assumption. reflexivity.
 Qed.
 
 (** * Message level, bounded-exhaustive: the flat type
